@@ -3,6 +3,7 @@ package props
 import (
 	"fmt"
 	"go/token"
+	"go/types"
 	"strings"
 
 	"golang.org/x/tools/go/ssa"
@@ -18,6 +19,10 @@ func init() {
 		Assumptions: []string{"fmutils.NestedMask.Filter keeps exactly the masked fields, Prune clears exactly the masked fields, proto.Merge copies set fields of src into dst, protoreflect Range stops when the callback returns false"},
 		Run:         runC05,
 		Controls: []Control{
+			{Name: "intersect-keeps-the-empty-side", File: "pkg/masks/update.go", Old: "\t\tcase len(am) == 0:\n\t\t\tres[name] = bm\n", New: "\t\tcase len(am) == 0:\n\t\t\tres[name] = am\n", Expect: "R05.9"},
+			{Name: "create-merges-into-the-written-message", File: "pkg/resource/collection.go", Old: "\t\t\tcreated = msg.ProtoReflect().New().Interface()\n", New: "\t\t\tcreated = msg\n", Expect: "R05.10"},
+			{Name: "first-write-merges-into-the-written-message", File: "pkg/resource/opt.go", Old: "\t\t\tdst = value.ProtoReflect().New().Interface()\n", New: "\t\t\tdst = value\n", Expect: "R05.10"},
+			{Name: "revert-F61-clear-by-update-mask-alone", File: "pkg/masks/update.go", Old: "\tpruneEmpty(dst, src, clearMask)\n", New: "\t_ = clearMask\n\tpruneEmpty(dst, src, nestedMask)\n", Expect: "R05.9"},
 			{Name: "revert-F54-update-mask-raw", File: "pkg/masks/update.go", Old: "fmutils.NestedMaskFromPaths(normalPaths(mask.GetPaths()))", New: "fmutils.NestedMaskFromPaths(mask.GetPaths())", Expect: "R05.8"},
 			{Name: "reset-mask-raw", File: "pkg/masks/update.go", Old: "fmutils.Prune(dst, normalPaths(f.resetMask.Paths))", New: "fmutils.Prune(dst, f.resetMask.Paths)", Expect: "R05.8"},
 			{Name: "normal-paths-without-normalize", File: "pkg/masks/update.go", Old: "\tmask.Normalize()\n\treturn mask.Paths\n", New: "\treturn mask.Paths\n", Expect: "R05.8"},
@@ -32,8 +37,7 @@ func init() {
 			{Name: "revert-F29-clear-whole-parent", File: "pkg/masks/update.go", Old: "\t\t\tif len(fieldMask) == 0 {\n\t\t\t\t// the mask names the whole field\n\t\t\t\tdstPr.Clear(d)\n\t\t\t} else if", New: "\t\t\tif true {\n\t\t\t\tdstPr.Clear(d)\n\t\t\t} else if", Expect: "R05.5"},
 			{Name: "ignore-more-writable", File: "pkg/resource/opt.go", Old: "fields := fieldmaskpb.Union(writableFields, wr.moreWritableFields)", New: "fields := fieldmaskpb.Union(writableFields, writableFields)", Expect: "R05.3"},
 			{Name: "merge-before-filter", File: "pkg/masks/update.go", Old: "\tnestedMask.Filter(src)\n\tproto.Merge(dst, src)\n", New: "\tproto.Merge(dst, src)\n\tnestedMask.Filter(src)\n", Expect: "R05.4"},
-			{Name: "reset-before-merge", File: "pkg/masks/update.go", Old: "\tproto.Merge(dst, src)\n\n\t// if a field mentioned by the mask is nil, we should clear it\n\tpruneEmpty(dst, src, nestedMask)\n\n\tif f.resetMask != nil {\n\t\tfmutils.Prune(dst, normalPaths(f.resetMask.Paths))\n\t}\n",
-				New: "\tif f.resetMask != nil {\n\t\tfmutils.Prune(dst, normalPaths(f.resetMask.Paths))\n\t}\n\tproto.Merge(dst, src)\n\n\tpruneEmpty(dst, src, nestedMask)\n", Expect: "R05.4"},
+			{Name: "reset-before-merge", File: "pkg/masks/update.go", Old: "\tproto.Merge(dst, src)\n\n\t// if a field mentioned by the mask is nil, we should clear it, as far as it is writable\n", New: "\tif f.resetMask != nil {\n\t\tfmutils.Prune(dst, normalPaths(f.resetMask.Paths))\n\t\tf = &FieldUpdater{writableFields: f.writableFields, updateMask: f.updateMask}\n\t}\n\tproto.Merge(dst, src)\n\n", Expect: "R05.4"},
 			{Name: "reset-with-mask", File: "pkg/masks/update.go", Old: "\tmask := f.updateMask\n\tif mask == nil {\n", New: "\tmask := f.updateMask\n\tif mask == nil || len(mask.GetPaths()) > 1 {\n", Expect: "R05.4"},
 			{Name: "prune-stops-early", File: "pkg/masks/update.go", Old: "\t\t\t\tfieldMask.Prune(dstPr.Get(d).Message().Interface())\n\t\t\t}\n\t\t\treturn true", New: "\t\t\t\tfieldMask.Prune(dstPr.Get(d).Message().Interface())\n\t\t\t}\n\t\t\treturn false", Expect: "R05.5"},
 			{Name: "validate-twice", Silent: true, File: "pkg/resource/value.go", Old: "\tif err := writer.Validate(value); err != nil {\n\t\treturn nil, err\n\t}\n", New: "\tif err := writer.Validate(value); err != nil {\n\t\treturn nil, err\n\t}\n\tif err := writer.Validate(value); err != nil {\n\t\treturn nil, err\n\t}\n"},
@@ -57,6 +61,10 @@ func runC05(c *an.Ctx) {
 	c.Min("R05.4", 10)
 	r058(c, "R05.8")
 	c.Min("R05.8", 3)
+	r059intersect(c, "R05.9")
+	r0510(c, "R05.10")
+	c.Min("R05.10", 2)
+	c.Min("R05.9", 2)
 	c.Min("R05.5", 2)
 }
 
@@ -73,10 +81,11 @@ func r051(c *an.Ctx) {
 			continue
 		}
 		name := "(*pkg/resource." + t[0] + ")." + t[1]
-		ups := an.CallsTo(fn, fuq)
-		vals := an.CallsTo(fn, updaterValidate)
-		cfs := an.CallsTo(fn, cfq)
-		gaus := an.CallsTo(fn, gauName)
+		// (each step may sit in a helper set/Update hands its values to: store(value, request, writer))
+		ups := deepInner(an.CallsToDeep(fn, fuq))
+		vals := deepInner(an.CallsToDeep(fn, updaterValidate))
+		cfs := deepInner(an.CallsToDeep(fn, cfq))
+		gaus := deepInner(an.CallsToDeep(fn, gauName))
 		if len(ups) == 0 || len(vals) == 0 || len(cfs) == 0 || len(gaus) == 0 {
 			c.Bad(rule, name+"|one updater validates and merges", fn.Pos(), fmt.Sprintf("fieldUpdater/Validate/changeFn/GetAndUpdate call sites: %d/%d/%d/%d", len(ups), len(vals), len(cfs), len(gaus)))
 			continue
@@ -496,6 +505,19 @@ func r054as(c *an.Ctx, rule string) {
 			a.why = why
 		}
 	}
+	rows9 := map[string]*agg{}
+	rec9 := func(row string, good bool, why string) {
+		a := rows9[row]
+		if a == nil {
+			a = &agg{ok: true}
+			rows9[row] = a
+		}
+		a.n++
+		if !good && a.ok {
+			a.ok = false
+			a.why = why
+		}
+	}
 	writesDst := func(r an.CallRec) bool {
 		for _, a := range r.Args {
 			if a.S == "dst" || strings.HasPrefix(a.S, "call dst.ProtoReflect") {
@@ -535,6 +557,7 @@ func r054as(c *an.Ctx, rule string) {
 		idx := map[string]int{}
 		var resetDst, pruneWritableDst, resetMaskPrune, filterWritableSrc, filterMaskSrc, merge, pruneE = -1, -1, -1, -1, -1, -1, -1
 		anyDstWrite := false
+		pruneMask := ""
 		// the written message as Merge works on it: src itself, or the copy it makes before filtering
 		isSrc := func(t string) bool {
 			return t == "src" || (strings.HasPrefix(t, "call ") && strings.HasSuffix(t, "proto.Clone(src)"))
@@ -567,6 +590,9 @@ func r054as(c *an.Ctx, rule string) {
 				rec("merge copies src into dst", len(r.Args) == 2 && r.Args[0].S == "dst" && isSrc(r.Args[1].S), "proto.Merge is called with ("+r.Args[0].S+", "+r.Args[1].S+")")
 			case strings.HasSuffix(r.Callee, "pkg/masks.pruneEmpty"):
 				pruneE = i
+				if len(r.Args) == 3 {
+					pruneMask = r.Args[2].S
+				}
 			}
 		}
 		_ = idx
@@ -595,11 +621,29 @@ func r054as(c *an.Ctx, rule string) {
 		} else if rNil == "true" {
 			rec("no reset mask: nothing pruned afterwards", resetMaskPrune < 0, "dst is pruned although no reset mask is configured")
 		}
+		// what is cleared because the written message lacks it is bounded by BOTH masks: with a writable restriction the
+		// mask handed to pruneEmpty derives from the update mask and from the writable mask (their intersection). With the
+		// update mask alone, a mask naming a parent whose writable part is one child clears the read-only siblings as well
+		// when the written message lacks the parent, and keeps the writable child when only that is missing
+		if uNil == "false" && pruneE >= 0 {
+			if hasW {
+				rec9("fields cleared for being absent are bounded by the update mask and the writable mask", strings.Contains(pruneMask, "f.updateMask") && strings.Contains(pruneMask, "f.writableFields"),
+					"pruneEmpty is given "+pruneMask+": with a writable restriction the fields cleared because the written message lacks them must be those named by the update mask AND writable; with update mask [a] and writable [a.b], a write without a clears the read-only rest of a, and a write of a without b leaves b as it was")
+			} else {
+				rec9("fields cleared for being absent are bounded by the update mask and the writable mask", strings.Contains(pruneMask, "f.updateMask"), "pruneEmpty is given "+pruneMask+", which does not derive from the update mask")
+			}
+		}
 		rec("unset masked fields are cleared after the merge", pruneE > merge && merge >= 0, "pruneEmpty(dst, src, mask) does not follow the merge: a masked field absent from the written message keeps its old value")
 	}
 	for _, row := range an.SortedKeys(rows) {
 		a := rows[row]
 		c.Check(a.ok, rule, name+"|"+row, fn.Pos(), fmt.Sprintf("%d path(s)", a.n), a.why)
+	}
+	if rule == "R05.4" {
+		for _, row := range an.SortedKeys(rows9) {
+			a := rows9[row]
+			c.Check(a.ok, "R05.9", name+"|"+row, fn.Pos(), fmt.Sprintf("%d path(s)", a.n), a.why)
+		}
 	}
 }
 
@@ -728,4 +772,187 @@ func r057(c *an.Ctx) {
 				"the request's UpdateMask is replaced by a union of paths on a path where it may be nil: fieldmaskpb.Union(nil, more) is a mask holding only the extra paths, so a write without update mask (which means every writable field) combined with WithMoreUpdatePaths touches only those paths and leaves the other writable fields at their old values")
 		})
 	}
+}
+
+// r059intersect: inside the function that intersects two nested masks, a name without anything below it selects the
+// whole field, so on the branch where one side's sub-mask is empty the entry of the result is the OTHER side's sub-mask.
+// Storing the empty one selects the whole field although the other mask names only a part of it.
+func r059intersect(c *an.Ctx, rule string) {
+	merge := c.Prog.Func("pkg/masks", "FieldUpdater", "Merge")
+	if merge == nil {
+		return
+	}
+	// the intersecting helper: a function of pkg/masks with two NestedMask parameters whose result reaches pruneEmpty
+	var fn *ssa.Function
+	for _, call := range an.CallsTo(merge, an.ModulePath+"/pkg/masks.pruneEmpty") {
+		for _, v := range localValues(call.Common().Args[2], 0) {
+			if cl, ok := v.(*ssa.Call); ok {
+				if h := cl.Call.StaticCallee(); h != nil && an.InModule(h) && len(h.Params) == 2 &&
+					strings.HasSuffix(h.Params[0].Type().String(), "fmutils.NestedMask") && strings.HasSuffix(h.Params[1].Type().String(), "fmutils.NestedMask") {
+					fn = h
+				}
+			}
+		}
+	}
+	if fn == nil {
+		return // R05.9 reports a pruneEmpty mask that does not derive from both masks
+	}
+	name := an.FuncName(fn)
+	n, ok := 0, true
+	var where ssa.Instruction
+	an.Instrs(fn, func(in ssa.Instruction) {
+		mu, isMU := in.(*ssa.MapUpdate)
+		if !isMU {
+			return
+		}
+		for _, e := range an.GuardingEdges(mu) {
+			bo, isBO := e.If.Cond.(*ssa.BinOp)
+			if !isBO || bo.Op != token.EQL || !e.Branch {
+				continue
+			}
+			k, isC := an.ConstInt(bo.Y)
+			lenCall, isCall := bo.X.(*ssa.Call)
+			if !isC || k != 0 || !isCall || an.CalleeName(lenCall) != "builtin len" {
+				continue
+			}
+			n++
+			if an.SameValues(mu.Value, lenCall.Call.Args[0]) {
+				ok, where = false, mu
+			}
+		}
+	})
+	if n == 0 {
+		c.Ok(rule, name+"|an empty sub-mask yields to the other side's", fn.Pos(), "no branch on an empty sub-mask")
+		return
+	}
+	pos := fn.Pos()
+	if where != nil {
+		pos = where.Pos()
+	}
+	c.Check(ok, rule, name+"|an empty sub-mask yields to the other side's", pos, fmt.Sprintf("%d branch(es)", n),
+		"on the branch where one mask names the whole field (its sub-mask is empty) the result stores that empty sub-mask instead of the other side's: the intersection then selects the whole field, so with update mask [a] and writable [a.b] a write without a clears the read-only rest of a again")
+}
+
+// r0510: what a creating write merges into. When there is no stored message yet, the masked merge starts from an
+// EMPTY message of the written type (msg.ProtoReflect().New().Interface()): starting from the written message itself
+// (or a copy of it) stores every field it carries, whatever the update mask and the writable fields say, and merging the
+// message into itself doubles its repeated fields. Checked where the two write paths make that message: the `created`
+// variable of Collection.Update's read callback and the nil-destination branch of the change function.
+func r0510(c *an.Ctx, rule string) {
+	isEmptyNew := func(v ssa.Value) bool {
+		vals := an.ValuesAt(v)
+		if len(vals) == 0 {
+			return false
+		}
+		for _, x := range vals {
+			if an.IsNilConst(x) {
+				continue
+			}
+			call, ok := x.(*ssa.Call)
+			if !ok || !call.Call.IsInvoke() || call.Call.Method.Name() != "Interface" {
+				return false
+			}
+			inner, ok := call.Call.Value.(*ssa.Call)
+			if !ok || !inner.Call.IsInvoke() || inner.Call.Method.Name() != "New" {
+				return false
+			}
+		}
+		return true
+	}
+	isMsg := func(t types.Type) bool {
+		s := t.String()
+		return strings.HasSuffix(s, "proto.Message") || strings.HasSuffix(s, "protoreflect.ProtoMessage")
+	}
+	// Collection.Update: stores to the variable the read callback returns for a new item
+	if fn := mustFunc(c, rule, resPkg, "Collection", "Update"); fn != nil {
+		n, ok := 0, true
+		var where ssa.Instruction
+		for _, f := range an.WithClosures(fn) {
+			if f == fn {
+				continue
+			}
+			an.Instrs(f, func(in ssa.Instruction) {
+				st, isSt := in.(*ssa.Store)
+				if !isSt || !isMsg(st.Val.Type()) {
+					return
+				}
+				if _, isFV := st.Addr.(*ssa.FreeVar); !isFV {
+					return
+				}
+				if an.IsNilConst(st.Val) {
+					return
+				}
+				// only the variable that is handed to GetAndUpdate as the current value of a new item
+				returned := false
+				for _, r := range an.Returns(f) {
+					if len(r.Results) == 2 {
+						if ld, isLd := r.Results[0].(*ssa.UnOp); isLd && ld.X == st.Addr {
+							returned = true
+						}
+					}
+				}
+				if !returned {
+					return
+				}
+				n++
+				if !isEmptyNew(st.Val) {
+					ok, where = false, in
+				}
+			})
+		}
+		pos := fn.Pos()
+		if where != nil {
+			pos = where.Pos()
+		}
+		c.Check(ok && n > 0, rule, "(*pkg/resource.Collection).Update|a new item is merged into an empty message", pos, fmt.Sprintf("%d store(s)", n),
+			"the message a creating write starts from is not msg.ProtoReflect().New().Interface(): starting from the written message stores all of its fields regardless of update mask and writable fields (and merges its repeated fields into themselves)")
+	}
+	// changeFn: the nil-destination branch
+	if fn := mustFunc(c, rule, resPkg, "WriteRequest", "changeFn"); fn != nil {
+		for _, cl := range changeFnBodies(fn) {
+			dst := cl.Params[len(cl.Params)-1]
+			n, ok := 0, true
+			for _, call := range an.CallsTo(cl, updaterMerge) {
+				// Merge(writer, dst', value): dst' is the parameter or, where that was nil, an empty message
+				for _, v := range an.ValuesAt(call.Common().Args[1]) {
+					if v == ssa.Value(dst) {
+						continue
+					}
+					n++
+					if !isEmptyNew(v) {
+						ok = false
+					}
+				}
+			}
+			c.Check(ok && n > 0, rule, "(pkg/resource.WriteRequest).changeFn$1|without a stored message the merge starts from an empty one", cl.Pos(), fmt.Sprintf("%d alternative destination(s)", n),
+				"when there is no message to merge into, the change function does not start from value.ProtoReflect().New().Interface(): the first write to an empty Value then stores the written message as it is, ignoring update mask and writable fields (and the caller keeps a reference to what is stored)")
+		}
+	}
+}
+
+// changeFnBodies: the function(s) that WriteRequest.changeFn hands out as the change function: its literal, or the
+// method behind a method value of an object built there (`return c.apply`). The last two parameters are (old, dst).
+func changeFnBodies(fn *ssa.Function) []*ssa.Function {
+	var out []*ssa.Function
+	for _, a := range fn.AnonFuncs {
+		if len(a.Params) == 2 {
+			out = append(out, a)
+		}
+	}
+	if len(out) > 0 {
+		return out
+	}
+	for _, r := range an.Returns(fn) {
+		if len(r.Results) != 1 {
+			continue
+		}
+		for _, src := range an.SourcesOpaque(r.Results[0]) {
+			if mc, isMC := src.(*ssa.MakeClosure); isMC {
+				if body, _, _ := an.CallbackBody(mc); body != nil && len(body.Params) >= 2 {
+					out = append(out, body)
+				}
+			}
+		}
+	}
+	return out
 }
